@@ -61,7 +61,7 @@ TRUSTED = [
 ]
 ASSUMPTIONS = ["tree-shaped inputs: no mutable object occurs at two positions", "no nan/inf/-0.0", "0 <= threshold_to_diff_deeper <= 1"]
 
-# second tie between model and code (DESIGN.md section 4.5; coq/theories/DiffIO/NOTES_srctie.md): the pairing heuristic is
+# second tie between model and code (DESIGN.md section 4.5; coq/theories/DiffIO/NOTES_srctie_C05.md): the pairing heuristic is
 # regenerated from /repo's current diff.py on every run and proved equal to the hand model of the selection (MemoPairs.v); the
 # validity of the pairing oracle is then a THEOREM about what the source computes, not only a run-time check of recorded pairings
 SOURCE_TIES = [{
